@@ -248,7 +248,7 @@ pub fn gen_timeline(rng: &mut Rng, k: &Knobs) -> TlSpec {
         Some(rng.range(17, 70) as usize)
     } else if rng.chance(0.0015) {
         Some(rng.range(258, 420) as usize)
-    } else if rng.chance(0.00002) {
+    } else if rng.chance(0.00004) {
         // a baked curve: more frames for one property than fit in 16 bits
         Some(rng.range(65_600, 70_000) as usize)
     } else {
@@ -284,13 +284,15 @@ pub fn gen_timeline(rng: &mut Rng, k: &Knobs) -> TlSpec {
             kf.n = Some(gen_i32_value(rng, k));
             kf.k = Some(gen_u8_value(rng, k));
         } else {
-            if allowed[0] && rng.chance(k.p_prop_in_kf) {
+            // (in a many-keyframe timeline every keyframe defines `a`, so that this one property
+            // really has that many frames)
+            if many.is_some() || (allowed[0] && rng.chance(k.p_prop_in_kf)) {
                 kf.a = Some(gen_f32_value(rng, k));
             }
             if allowed[1] && rng.chance(k.p_prop_in_kf) {
                 kf.b = Some(gen_f32_value(rng, k));
             }
-            if allowed[2] && rng.chance(k.p_prop_in_kf) {
+            if (many.is_some() && rng.chance(0.5)) || (allowed[2] && rng.chance(k.p_prop_in_kf)) {
                 kf.n = Some(gen_i32_value(rng, k));
             }
             if allowed[3] && rng.chance(k.p_prop_in_kf) {
